@@ -8,6 +8,14 @@ imports.  Observed per model file: `_pos_crossref_list` (in list order),
 `_pos_rule_dict` (in dict order, values numbered by the containment pre-order
 of the objects) and the containment tree with the objects' spans.
 
+Since W34 also: user classes (`classes=[...]`, instances falsy through
+`__bool__` / `__len__`, container-like, or all equal), a builtin model
+(`metamodel.builtin_models`) loaded from a string without / with a file name or
+from a file and referenced from the project, and the main model loaded from a
+string with `file_name=` (an editor buffer).  Every model's own `_tx_filename`
+is observed; the definition file of an entry is compared with the file name of
+the model the target object lives in.
+
 Lean side (Drivers/Positions.lean, op `tools`): `LinkLoc.run` on the same
 texts / reference spans / provider answers gives the cross-reference lists;
 `PosDict.posRuleDict` on the observed object trees gives the position maps.
@@ -178,12 +186,18 @@ class Prop(Check):
     PROCS_THOROUGH = 4  # builders share the machine; raise together with THOROUGH_CASES on a free one
     RULE = ("valid projects of 1..4 files with plain / qualified references (optionally with blanks around the dots), "
             "reference lists, random postponement schedules (0..3 rounds), nested objects sharing start or span, "
-            "packages, imports; non-trivial = some reference is resolved after a textually later one of its file, or a "
+            "packages, imports; user classes with falsy / container-like / all-equal instances, a builtin model "
+            "(string without or with file name, file) as reference target, main model from file / string / string with "
+            "file name; non-trivial = a reference to a falsy object, or to an object of another model whose file name "
+            "is None, or some reference is resolved after a textually later one of its file, or a "
             "reference text is longer than its target's name, or two nested objects have the same span")
     MODELLED = ("hand-modelled: model.py resolve_one_step RefRulePosition collection inside the resolution loop "
                 "(LinkLoc.run), process_node pos_rule_dict collection and the final sort (PosDict.posRuleDict); tie X op "
                 "tools: lists from texts / reference spans / schedules, maps from the observed object trees; not "
-                "exhibited: the parser (spans of objects and reference nodes are inputs)")
+                "exhibited: the parser (spans of objects and reference nodes are inputs); the truth value / equality of "
+                "the target objects and the way a model got its file name are not model inputs: the model lists every "
+                "answer that is not Postponed with the file name of the target's model, so any dependence of the code on "
+                "them is a disagreement")
     ASSUMPTIONS = [
         "object spans form a parse geometry - used only for the 'every object with that span contains the chosen one' "
         "clause: C34_dict_innermost wants `wf` (children inside the parent, in text order, non-empty), "
